@@ -40,7 +40,13 @@ Modelling decisions (validated by the correspondence run, stated in the evidence
   `truev is falsev` on two lists returns a list with the same elements as the element-wise merge).
 * Operand kinds for which the library computes something else than Python (`LinComb < LinCombFxp`,
   `~LinComb`, fixed point times fixed point, which truncates) and list arithmetic stop with
-  `unmodelled`; so do selections between lists of different lengths (`zip` truncates silently).
+  `unmodelled`.
+* A selection between two lists of different lengths is REFUSED: `if_then_else` compares the two
+  lengths before it merges anything and raises `ValueError` (`Err.value`).  This is also what the
+  merge at a block exit does when an arm (a loop round) rebinds a tracked list to a list of another
+  length: native Python would simply rebind, which no element-wise merge can express.  (Before the
+  repair of finding C09-list-length-truncated the merge went through `zip`, which silently kept the
+  first `min` elements.)
 -/
 namespace Pysnark
 
@@ -292,15 +298,18 @@ def mergeS (cond : LinComb) (t f : SVal) (n : Nat) : M (SVal × Nat) :=
     freshS r n
 
 mutual
-/-- `if_then_else(cond, truev, falsev)` on evaluated values: scalars, or lists merged element-wise -/
+/-- `if_then_else(cond, truev, falsev)` on evaluated values: scalars, or lists of one length merged
+element-wise; `if len(truev) != len(falsev): raise ValueError(…)` comes before any element is merged -/
 def mergeT (cond : LinComb) : TVal → TVal → Nat → M (TVal × Nat)
   | .leaf a, .leaf b, n => do
     let (r, n) ← mergeS cond a b n
     pure (.leaf r, n)
-  | .node ts, .node fs, n => do
-    let (rs, n) ← mergeTL cond ts fs n
-    pure (.node rs, n)
-  | .node _, .leaf _, _ => raise .type            -- `zip(truev, falsev)`: not iterable
+  | .node ts, .node fs, n =>
+    if ts.length = fs.length then do
+      let (rs, n) ← mergeTL cond ts fs n
+      pure (.node rs, n)
+    else raise .value                             -- lists of different lengths: refused, not zipped
+  | .node _, .leaf _, _ => raise .type            -- `len(falsev)`: a scalar has no length
   | .leaf _, .node _, _ => raise .type            -- `truev - falsev` with a list
 def mergeTL (cond : LinComb) : List TVal → List TVal → Nat → M (List TVal × Nat)
   | t :: ts, f :: fs, n => do
@@ -308,7 +317,7 @@ def mergeTL (cond : LinComb) : List TVal → List TVal → Nat → M (List TVal 
     let (rs, n) ← mergeTL cond ts fs n
     pure (r :: rs, n)
   | [], [], n => pure ([], n)
-  | _, _, _ => raise .unmodelled                  -- `zip` stops at the shorter list
+  | _, _, _ => raise .value                       -- not reached: `mergeT` compared the lengths
 end
 
 /-- `for nm in self.nodefvals: … self.nodefvals[nm] = if_then_else(self.cond, self.ctx.vals[nm], self.nodefvals[nm])` -/
